@@ -22,7 +22,7 @@ from hypothesis import strategies as st
 
 from vlib.runner import Sub, Violation, Inconclusive, ok
 from vlib.util import fl, rng_of, maxabs
-from vlib import wbsys
+from vlib import wbsys, c06run
 
 PROPERTY_ID = "C06"
 RULE = ("histories: lattice family (11 kinds, optionally rotated in space) + 0-3 generators from the crystallographic "
@@ -917,4 +917,6 @@ SUBS = [
     Sub("sweep", sweep_st, check_sweep, quick=8, thorough=27, budget_quick=60, budget_thorough=120, per_shard_min=1),
     Sub("history", history_st(), check_history, quick=480, thorough=19200, budget_quick=60, budget_thorough=360),
     Sub("tetra", tetra_case_st(), check_tetra, quick=240, thorough=8000, budget_quick=60, budget_thorough=200),
+    # the same invariants on the weights that run() itself keeps, through refinements and restarts (vlib/c06run.py)
+    Sub("run", c06run.run_st, c06run.check_run, quick=32, thorough=400, budget_quick=60, budget_thorough=300),
 ]
